@@ -433,6 +433,7 @@ func genC13UB(c *Ctx, f *c13Fails) {
 
 func genC13(c *Ctx) {
 	f := &c13Fails{c: c, seen: map[string]int{}}
+	defer genC13r8(c, f)() // round 8: wall-clock scenarios start here in the background, verdicts are collected at the end
 	genC13UB(c, f)
 	genC13Add(c, f)
 	genC13Repro(c, f)
